@@ -404,7 +404,9 @@ def cart2geodetic(x, y, z, ellipsoid=None):
     inrange(ellipsoid[1], 0, 1, exclude='upper', text=errtext)
 
     lon = np.rad2deg(np.arctan2(y, x))
-    B0 = np.arctan2(z, np.hypot(x, y))
+    # (double precision: in single precision the iteration below can oscillate
+    # between two neighbouring numbers and never meet the stop criterion)
+    B0 = np.arctan2(z, np.hypot(x, y)).astype(float)
     B = B0 + 1.  # ensures that the iteration below starts
     e2 = ellipsoid[1]**2
     if e2 == 0.0:
